@@ -236,3 +236,29 @@ func itoa(n int) string {
 func accRTO(a *Association) float64 { return a.rtoMgr.rto }
 
 func accSRTTVar(a *Association) (float64, float64) { return a.rtoMgr.srtt, a.rtoMgr.rttvar }
+
+// accSetSeqBase moves a fresh stream's sequence spaces (sender counters and receiver cursors) to a
+// base value, as if base-many messages had been exchanged before (C16: 2^32 messages cannot be sent).
+func accSetSeqBase(s *Stream, ssn uint16, mid uint32) {
+	s.sequenceNumber = ssn
+	s.nextOrderedMID = mid
+	s.nextUnorderedMID = mid
+	s.reassemblyQueue.nextSSN = ssn
+	s.reassemblyQueue.nextMID = mid
+}
+
+// accInflightActual sums the user bytes actually held by the chunks of the in-flight queue
+// (acknowledged chunks have their payload emptied).
+func accInflightActual(a *Association) int {
+	n := 0
+	q := a.inflightQueue.chunks
+	for i := 0; i < q.Len(); i++ {
+		n += len(q.At(i).userData)
+	}
+	return n
+}
+
+// accStreamRegistered: is this Stream object still the one the association knows under its identifier?
+func accStreamRegistered(a *Association, s *Stream) bool {
+	return a.streams[s.streamIdentifier] == s
+}
